@@ -402,6 +402,34 @@ theorem ids_never_reused (ops : List Op) (s s' : State) (h : Inv s) (hr : run s 
       exact ⟨Nat.le_trans one.1 hle, fun t ht hlt => one.2 t (hsub t ht (Nat.lt_of_lt_of_le hlt one.1)) hlt⟩
     · cases hr
 
+/-- after a cancel the id is not live any more -/
+theorem find_cancel_same (s : State) (id : Int) (h : Inv s) : find (cancel s id).1 id = none := by
+  have e := cancel_exact s id h
+  unfold find
+  rw [e]
+  apply List.find?_eq_none.mpr
+  intro t ht
+  have := (List.mem_filter.mp ht).2
+  simpa [bne] using this
+
+/-- `timer_mgr_reschedule` of a live timer replaces it: the old id is dead, the new id is fresh and denotes the new deadline,
+every other timer is untouched - one user never ends up with two deadlines -/
+theorem reschedule_replaces (s : State) (h : Inv s) (now : Nat) (rel : Int) (id : Int) (t : Timer) (hl : find s id = some t) :
+    find (reschedule s now rel id).1 id = none ∧
+    find (reschedule s now rel id).1 (reschedule s now rel id).2 = some { id := s.nextId, expiry := now + rel.toNat } ∧
+    ∀ id' : Int, id' ≠ id → id' ≠ (s.nextId : Int) → find (reschedule s now rel id).1 id' = find s id' := by
+  have ht : t ∈ s.timers := List.mem_of_find?_eq_some hl
+  have hid : (t.id : Int) = id := by simpa using List.find?_some hl
+  have hlt := h.2.1 t ht
+  have hge : id ≥ 0 := by omega
+  have hne : ¬ ((s.nextId : Int) = id) := by omega
+  unfold reschedule
+  simp only [hge, if_true, find_schedule, cancel_nextId, schedule_id, hne, if_false]
+  refine ⟨find_cancel_same s id h, by simp, fun id' h1 h2 => ?_⟩
+  have : ¬ ((s.nextId : Int) = id') := fun e => h2 e.symm
+  simp only [this, if_false]
+  exact find_cancel_other s id id' h1
+
 /-- a stale id (its timer was cancelled or acknowledged earlier) cancels nothing, whatever happened in between -/
 theorem stale_cancel_harmless (s : State) (id : Int) (hst : find s id = none) : (cancel s id).1 = s := by
   simp [cancel, tryCancel, hst]
